@@ -3,7 +3,6 @@ package encoder
 import (
 	"bytes"
 	"fmt"
-	"strconv"
 	"unsafe"
 
 	"github.com/goccy/go-json/internal/errors"
@@ -225,16 +224,38 @@ func compactString(dst, src []byte, cursor int64, escape bool) ([]byte, int64, e
 		switch c {
 		case '\\':
 			cursor++
-			if src[cursor] == nul {
+			switch src[cursor] {
+			case '"', '\\', '/', 'b', 'f', 'n', 'r', 't':
+			case 'u':
+				for i := 0; i < 4; i++ {
+					cursor++
+					if !isHexChar(src[cursor]) {
+						if src[cursor] == nul {
+							return nil, 0, errors.ErrUnexpectedEndOfJSON("string", int64(len(src)))
+						}
+						return nil, 0, errors.ErrInvalidCharacter(src[cursor], "string escape", cursor)
+					}
+				}
+			case nul:
 				return nil, 0, errors.ErrUnexpectedEndOfJSON("string", int64(len(src)))
+			default:
+				return nil, 0, errors.ErrInvalidCharacter(src[cursor], "string escape", cursor)
 			}
 		case '"':
 			cursor++
 			return append(dst, src[start:cursor]...), cursor, nil
 		case nul:
 			return nil, 0, errors.ErrUnexpectedEndOfJSON("string", int64(len(src)))
+		default:
+			if c < 0x20 {
+				return nil, 0, errors.ErrInvalidCharacter(c, "string", cursor)
+			}
 		}
 	}
+}
+
+func isHexChar(c byte) bool {
+	return '0' <= c && c <= '9' || 'a' <= c && c <= 'f' || 'A' <= c && c <= 'F'
 }
 
 func compactNumber(dst, src []byte, cursor int64) ([]byte, int64, error) {
@@ -247,8 +268,8 @@ func compactNumber(dst, src []byte, cursor int64) ([]byte, int64, error) {
 		break
 	}
 	num := src[start:cursor]
-	if _, err := strconv.ParseFloat(*(*string)(unsafe.Pointer(&num)), 64); err != nil {
-		return nil, 0, err
+	if !isValidNumber(*(*string)(unsafe.Pointer(&num))) {
+		return nil, 0, errors.ErrInvalidCharacter(src[start], "number", start)
 	}
 	dst = append(dst, num...)
 	return dst, cursor, nil
